@@ -34,8 +34,26 @@ def conservedB (s : State) : Bool :=
 def capB (inst : Instance) (s : State) : Bool :=
   (allBufStates s).all fun b => (allBufCfgs inst).all fun c => c.id != b.id || decide ((b.store.length : Int) ≤ c.cap)
 
+/-- the initial state is at rest: machines idle and empty, no operation started, AGVs idle and unclaimed -/
+def restB (s : State) : Bool :=
+  s.machines.all (fun m => m.st == .idle && m.buffer.store.isEmpty) &&
+  s.jobs.all (fun j => j.ops.all (fun o => o.st == .idle)) &&
+  s.transports.all (fun t => t.st == .idle && t.job.isNone && (match t.occ with | .dep .. => false | _ => true))
+
 /-- everything the structural theorems assume about a compiled (instance, initial state) pair -/
 def initOKB (inst : Instance) (s : State) : Bool :=
   wfB inst && shapeB inst s && conservedB s && capB inst s
+
+/-- non-negative configured times (the DSL admits only `\\d+` for job durations; matrix and outage
+    entries are parsed with `int()`, so a negative literal would violate this guard) -/
+def TimeCfg.nonnegB : TimeCfg → Bool
+  | .det t => decide (0 ≤ t)
+  | .stoch _ => true
+
+def nonnegB (inst : Instance) : Bool :=
+  inst.jobs.all (fun j => j.ops.all (fun o => o.dur.nonnegB)) &&
+  inst.machines.all (fun m => m.setup.all (fun e => e.2.nonnegB) && m.outages.all (fun o => o.dur.nonnegB)) &&
+  inst.travel.all (fun e => e.2.nonnegB) &&
+  inst.transports.all (fun t => t.outages.all (fun o => o.dur.nonnegB))
 
 end JSL
